@@ -25,6 +25,7 @@ type genOpts struct {
 	oneDst       bool // all streams onto one downstream pchannel (C03)
 	dropOrder    bool // enumerate shard delivery orders of drops (C04)
 	unequalCount bool // SourceChannelNum != TargetChannelNum (C16 end-to-end)
+	partBeforeColl bool // the partitions of a late collection are announced concurrently with (possibly before) the collection itself
 	reincarnate  bool // a dropped partition is created again under the same name (new ids on both sides) and gets data
 }
 
@@ -113,6 +114,39 @@ func genCase(seed int64, idx int, o genOpts) *Case {
 			}
 			for pi := range col.Parts {
 				col.Parts[pi].DstID = col.DstID*10 + int64(1+pi)
+			}
+		}
+	}
+	if o.unequalCount {
+		// the two clusters have different numbers of physical channels
+		ur := newRand(seed, "unequal-"+o.profile, idx)
+		mP := 1 + ur.Intn(5)
+		for mP == nP {
+			mP = 1 + ur.Intn(5)
+		}
+		c.DstPs = nil
+		for j := 0; j < mP; j++ {
+			c.DstPs = append(c.DstPs, dname(j))
+		}
+		c.DstChanNum = mP
+		for ci := range c.Colls {
+			col := &c.Colls[ci]
+			// like Milvus: the shards of one collection go to distinct downstream channels while there are enough of
+			// them (round-robin from some offset otherwise); the placement is independent of the upstream one
+			n := len(col.Shards)
+			var dst []int
+			if n <= mP {
+				dst = ur.Perm(mP)[:n]
+			} else {
+				off := ur.Intn(mP)
+				for k := 0; k < n; k++ {
+					dst = append(dst, (off+k)%mP)
+				}
+			}
+			sort.Ints(dst)
+			for k := range col.Shards {
+				col.Shards[k].DstP = dname(dst[k])
+				col.Shards[k].DstV = vName(col.Shards[k].DstP, col.DstID, k)
 			}
 		}
 	}
@@ -380,7 +414,15 @@ func genCase(seed int64, idx int, o genOpts) *Case {
 		c.Steps = append(c.Steps, st)
 		for pi := range c.Colls[lateColl].Parts {
 			ap := Step{Kind: sAddPart, Coll: lateColl, Part: pi, Async: true, After: []Dep{stepDep(si)}}
+			if o.partBeforeColl {
+				// the partition watch and the collection watch run on their own goroutines: the partition event may be
+				// handled first (AddPartition then has to wait for the collection's streams)
+				ap.After = []Dep{packDep(anchorP, lateAt-1, 0)}
+			}
 			for _, sh := range c.Colls[lateColl].Shards {
+				if o.partBeforeColl {
+					break
+				}
 				if o.raceAddPart {
 					ap.After = append(ap.After, regDep(sh.SrcV))
 				} else {
@@ -514,6 +556,8 @@ func genDrops(seed int64, idx int) *Case {
 	rnd := newRand(seed, "dropplan", idx)
 	o := genOpts{profile: "drops", maxP: 4, maxColls: 3, drops: true, late: false, deviants: idx%4 == 0, junk: false, skewMs: 20, packsMin: 6, packsMax: 14}
 	o.raceAddPart = idx%2 == 1
+	o.late = idx%3 == 2
+	o.partBeforeColl = o.late && idx%2 == 0
 	c := genCase(seed, idx, o)
 	c.DelayPermil = []int{0, 300}[rnd.Intn(2)]
 	mode := idx % 6
